@@ -352,6 +352,8 @@ def run(ctx):
 
     r = ctx.rule("R1t", "the (lower quadrant, upper quadrant) tables of Interval::sin / cos return an enclosure in every feasible cell: 1.0 / -1.0 where an extremum lies inside the box, otherwise the larger / smaller end (decided from the positions of the extrema, cell by cell); quadrant() numbers quarter periods in order", 48 + 5)
     ctx.guarded(r, QD.r_quadrant_tables)
+    r = ctx.rule("R1u", "each sign-class case of Interval::atan2 evaluates the two corners of the box where the angle is largest and smallest (from the monotonicity of atan2 in y and x on that class)", 7)
+    ctx.guarded(r, QD.r_atan2_corners)
     r = ctx.rule("R5b", "Interval::contains includes both bounds (what the choice functions decide on)", 1)
     ctx.guarded(r, r_contains)
     r = ctx.rule("R5", "paired guards agree: sin / cos early exits (whole period with >=), mix's single-bit-pattern tests, atan2's branch cut", 5)
